@@ -362,7 +362,9 @@ def run_case(ctx, case):
       for label, reg in (('configurable', lambda: gin.configurable('pkg.im' + base, module='a..b')(mcls)), ('register', lambda: gin.register('pkg.im' + base, module='not a module')(mcls)),
                          ('external_configurable', lambda: gin.external_configurable(mcls, name='pkg.im' + base, module='1abc')),
                          ('configurable (module ends in a newline)', lambda: gin.configurable('im' + base, module='mod\n')(mcls)),
-                         ('register (module ends in a newline)', lambda: gin.register('im' + base, module='mod\n')(mcls))):
+                         ('register (module ends in a newline)', lambda: gin.register('im' + base, module='mod\n')(mcls)),
+                         ('configurable (name ends in a newline)', lambda: gin.configurable('im' + base + '\n', module='c13')(mcls)),
+                         ('register (name ends in a newline)', lambda: gin.register('im' + base + '\n')(mcls))):
         try:
           reg()
           ctx.check(False, 'bad-registration-accepted', '%s of a class under a dotted name with an invalid module succeeded' % label)
